@@ -125,7 +125,8 @@ def build(conn):
     keys["ch_record"] = ch_rec.hex()
 
     if ver != T.TLS13:
-        master = R.fork("master").bytes(48)
+        # a resumed session shares the master secret of the session it resumes (different randoms, hence keys)
+        master = (Rng(conn["master_seed"], "master") if conn.get("master_seed") is not None else R.fork("master")).bytes(48)
         kb = T.key_block_legacy(ver, s, master, crand, srand)
         keys.update({k: v.hex() for k, v in kb.items()})
         W = {"c": T.WriteState(ver, s, kb["ckey"], kb["cmac"], kb["civ"], etm),
